@@ -59,11 +59,11 @@ Proof. exact slot_maps_complete. Qed.
 Print Assumptions C20_slot_maps_complete.
 
 (* every probed method with a documented layout returns that shape, those field names, each
-   field filled from the documented native slot (through the code's own slot map), and the
+   field filled from the documented native slot (its position in the native record), and the
    documented tuple type (gids() on macOS/SunOS/AIX excluded: finding) *)
 Theorem C20_methods_use_documented_slots : forall u d, In u usage_rows ->
   doc_layout (u_plat u) (u_meth u) (u_variant u) = Some d ->
-  fields_ok slot_maps u d = true /\ (known_gids_type (u_plat u) (u_meth u) = false -> type_ok u d = true).
+  fields_ok u d = true /\ (known_gids_type (u_plat u) (u_meth u) = false -> type_ok u d = true).
 Proof. exact methods_use_documented_slots. Qed.
 Print Assumptions C20_methods_use_documented_slots.
 
@@ -73,7 +73,7 @@ Print Assumptions C20_usage_rows_complete.
 
 (* status() and terminal() depend on their documented slot (Solaris terminal() excluded: finding) *)
 Theorem C20_methods_depend_on_documented_slot : forall u, In u usage_rows ->
-  known_terminal (u_plat u) (u_meth u) = false -> deps_ok slot_maps u = true.
+  known_terminal (u_plat u) (u_meth u) = false -> deps_ok u = true.
 Proof. exact methods_depend_on_documented_slot. Qed.
 Print Assumptions C20_methods_depend_on_documented_slot.
 
@@ -83,7 +83,7 @@ Proof. exact gids_type_refuted. Qed.
 Print Assumptions C20_gids_type_refuted.
 
 Theorem C20_sunos_terminal_refuted :
-  exists u, In u usage_rows /\ u_plat u = SunOS /\ u_meth u = "terminal"%string /\ deps_ok slot_maps u = false.
+  exists u, In u usage_rows /\ u_plat u = SunOS /\ u_meth u = "terminal"%string /\ deps_ok u = false.
 Proof. exact sunos_terminal_refuted. Qed.
 Print Assumptions C20_sunos_terminal_refuted.
 
